@@ -179,6 +179,13 @@ func (m *model) insert(rng *rand.Rand, o op) {
 		}
 	} else {
 		m.lc.C["zero_signature_stores"]++
+		// zero-signature keys are exempt from the no-phantom clause only: a probe right after the
+		// store must still hit and reflect it. Judged for exact stores with a move (no keep-deeper
+		// exception, no inherited move), which always overwrite.
+		if o.Type == int(transp.Exact) && o.Move != 0 {
+			m.lc.C["zero_signature_exact_stores_probed"]++
+			m.compare("after-store-of-zero-signature-key", h, &ent{o.Depth, o.Type, stored, o.Move, o.Gen, true, h}, rng.IntN(64))
+		}
 	}
 	// learn evictions by probing: at most one OTHER previously reachable key may be gone
 	lost := 0
@@ -499,7 +506,7 @@ func TestCheck(t *testing.T) {
 		})
 	}
 	floors := []string{"stores", "probes", "hits", "misses", "evictions", "keep_deeper_exceptions", "null_move_stores_keeping_older_move", "mate_score_stores", "clears", "resizes",
-		"generation_wraps", "zero_signature_stores", "hits_through_same_bucket_and_signature_alias", "ops_after_resize_without_clear(memory_safety_only)", "lane_matcher_cases", "resize_down_clear_up_clear_dances"}
+		"generation_wraps", "zero_signature_stores", "hits_through_same_bucket_and_signature_alias", "ops_after_resize_without_clear(memory_safety_only)", "lane_matcher_cases", "resize_down_clear_up_clear_dances", "zero_signature_exact_stores_probed"}
 	r.Finish(floors...)
 }
 
